@@ -14,9 +14,9 @@ use litep2p::{
     error::{AddressError, DialError, DnsError, NegotiationError, ParseError},
     transport::{
         verif::{
-            take_add_order, take_evicted, AddressType, DnsType, GetSocketAddr, SupportedTransport,
-            TcpAddress, TransportManager, TransportManagerBuilder, VerifCall, VerifScript,
-            WebSocketAddress,
+            take_add_calls, take_add_order, take_evicted, AddressType, DnsType, GetSocketAddr,
+            SupportedTransport, TcpAddress, TransportManager, TransportManagerBuilder, VerifCall,
+            VerifScript, WebSocketAddress,
         },
         ConnectionLimitsConfig,
     },
@@ -572,6 +572,12 @@ fn dial_code(r: &Result<(), Error>) -> u64 {
 /// (HashSet insertion order, evicted records, order of `addresses(limit)`, address lists given
 /// to `open()`) filled in, and the trace. `None` if the case is not well-formed.
 fn run_case(rt: &Runtime, w: &World, c: &[u64]) -> Option<(Vec<u64>, Vec<u64>)> {
+    if c.first() == Some(&2) {
+        return run_lp_case(w, &c[1..]).map(|(mut case, trace)| {
+            case.insert(0, 2);
+            (case, trace)
+        });
+    }
     let mut r = Reader { c, i: 0 };
     let flags: Vec<u64> = (0..5).map(|_| r.n()).collect::<Option<_>>()?;
     let (fw, fq, et, ew, eq) = (flags[0] != 0, flags[1] != 0, flags[2] != 0, flags[3] != 0, flags[4] != 0);
@@ -593,9 +599,18 @@ fn run_case(rt: &Runtime, w: &World, c: &[u64]) -> Option<(Vec<u64>, Vec<u64>)> 
     let tcp = et.then(|| manager.verif_register_scripted_as(SupportedTransport::Tcp));
     let ws = ew.then(|| manager.verif_register_scripted_as(SupportedTransport::WebSocket));
     let mut handle = manager.verif_handle();
+    // a protocol's TransportService on this manager (Kademlia and user protocols add addresses through it)
+    let mut service = manager.register_protocol(
+        litep2p::types::protocol::ProtocolName::from("/verif/c10/1"),
+        Vec::new(),
+        litep2p::codec::ProtocolCodec::Identity(32),
+        std::time::Duration::from_secs(5),
+        litep2p::protocol::SubstreamKeepAlive::Yes,
+    );
     let mut node = Node { manager, tcp, ws, held: Vec::new(), fillers: 0, limited: max_out != 0 };
     let _ = take_evicted();
     let _ = take_add_order();
+    let _ = take_add_calls();
 
     let nops = r.count()?;
     case.push(nops as u64);
@@ -613,6 +628,8 @@ fn run_case(rt: &Runtime, w: &World, c: &[u64]) -> Option<(Vec<u64>, Vec<u64>)> 
                 case.push(peer);
                 enc_list(&addrs, &mut case);
                 let n = handle.add_known_address(&w.peers[peer as usize], real.into_iter());
+                let calls = take_add_calls();
+                assert!(calls.len() == 1 && calls[0].0 == n, "one call, the count it returned");
                 let order: Vec<Abs> = take_add_order().iter().map(|a| abs_of(w, a)).collect();
                 enc_list(&order, &mut case);
                 enc_list(&evicted(w), &mut case);
@@ -932,6 +949,26 @@ fn run_case(rt: &Runtime, w: &World, c: &[u64]) -> Option<(Vec<u64>, Vec<u64>)> 
                     dump(&store_of(w, &node.manager, q), &mut out);
                 }
             }
+            13 => {
+                // TransportService::add_known_address (returns nothing: the count is the one the
+                // handle's add_known_address computed for this call)
+                let peer = r.peer()?;
+                let addrs = r.maddrs()?;
+                let _ = r.maddrs()?;
+                let _ = r.maddrs()?;
+                let real: Vec<Multiaddr> = addrs.iter().map(|a| real_of(w, a)).collect::<Option<_>>()?;
+                case.push(peer);
+                enc_list(&addrs, &mut case);
+                service.add_known_address(&w.peers[peer as usize], real.into_iter());
+                let calls = take_add_calls();
+                assert!(calls.len() == 1, "one add_known_address call on the handle per service call");
+                let order: Vec<Abs> = take_add_order().iter().map(|a| abs_of(w, a)).collect();
+                assert!(order.len() == calls[0].0, "count and insertion log differ");
+                enc_list(&order, &mut case);
+                enc_list(&evicted(w), &mut case);
+                out.extend([0, calls[0].0 as u64, 0]);
+                dump(&store_of(w, &node.manager, peer), &mut out);
+            }
             11 | 12 => {
                 let a = r.maddr()?;
                 let real = real_of(w, &a)?;
@@ -961,6 +998,221 @@ fn run_case(rt: &Runtime, w: &World, c: &[u64]) -> Option<(Vec<u64>, Vec<u64>)> 
     Some((case, out))
 }
 
+// ---------------------------------------------------------------- Litep2p-level cases
+
+const LP_PORTS: u64 = 10000;
+
+/// abstract port -> real port of the listen sockets of one Litep2p-level case
+struct PortMap(Vec<(u64, u16)>);
+
+impl PortMap {
+    fn real(&self, m: &Multiaddr) -> Multiaddr {
+        m.iter()
+            .map(|p| match p {
+                Protocol::Tcp(x) => Protocol::Tcp(
+                    self.0.iter().find(|(a, _)| *a == x as u64).map(|(_, r)| *r).unwrap_or(x),
+                ),
+                other => other,
+            })
+            .collect()
+    }
+    fn abs(&self, m: &Multiaddr) -> Multiaddr {
+        m.iter()
+            .map(|p| match p {
+                Protocol::Tcp(x) => Protocol::Tcp(
+                    self.0.iter().find(|(_, r)| *r == x).map(|(a, _)| *a as u16).unwrap_or(x),
+                ),
+                other => other,
+            })
+            .collect()
+    }
+}
+
+/// A port that is free right now on the loopback interface (a bind can still fail later: the
+/// caller retries).
+fn free_port() -> u16 {
+    loop {
+        let l = std::net::TcpListener::bind("127.0.0.1:0").expect("bind");
+        let p = l.local_addr().expect("addr").port();
+        if p as u64 >= 2 * LP_PORTS {
+            return p;
+        }
+    }
+}
+
+struct AddOp {
+    peer: u64,
+    addrs: Vec<Abs>,
+}
+
+/// One Litep2p-level case (format: Glue.v): `Litep2p::new` with configured known addresses and
+/// real TCP / WebSocket listeners on loopback addresses, then `Litep2p::add_known_address`.
+fn run_lp_case(w: &World, c: &[u64]) -> Option<(Vec<u64>, Vec<u64>)> {
+    use litep2p::{config::ConfigBuilder, Litep2p};
+    let mut r = Reader { c, i: 0 };
+    let nk = r.n()? as usize;
+    let flags: Vec<u64> = (0..5).map(|_| r.n()).collect::<Option<_>>()?;
+    let (fw, fq, et, ew, eq) = (flags[0] != 0, flags[1] != 0, flags[2] != 0, flags[3] != 0, flags[4] != 0);
+    if !fw || fq || eq || !(et || ew) {
+        return None;
+    }
+    let local = r.peer()?;
+    if r.n()? != 0 {
+        return None;
+    }
+    let header: Vec<u64> = c[1..r.i].to_vec();
+    let nops = r.count()?;
+    // the operations: nk additions (configuration), listen addresses, additions
+    let mut known: Vec<AddOp> = Vec::new();
+    let mut listens: Vec<Abs> = Vec::new();
+    let mut later: Vec<AddOp> = Vec::new();
+    let ports_ok = |a: &Abs| a.iter().all(|(t, x)| !(*t == 5 || *t == 6) || *x < LP_PORTS);
+    for i in 0..nops {
+        match r.n()? {
+            0 => {
+                let peer = r.peer()?;
+                let addrs = r.maddrs()?;
+                let _ = r.maddrs()?;
+                let _ = r.maddrs()?;
+                if !addrs.iter().all(ports_ok) {
+                    return None;
+                }
+                let op = AddOp { peer, addrs };
+                if i < nk {
+                    known.push(op);
+                } else {
+                    later.push(op);
+                }
+            }
+            5 => {
+                let a = r.maddr()?;
+                if i < nk || !later.is_empty() || !ports_ok(&a) {
+                    return None;
+                }
+                // /ip4/<loopback>/tcp/P for TCP, /ip4/<loopback>/tcp/P/ws for WebSocket
+                let shape_ok = match a.as_slice() {
+                    [(0, ip), (5, _)] => ip / 65536 == 1 && et,
+                    [(0, ip), (5, _), (7, 0)] => ip / 65536 == 1 && ew,
+                    _ => false,
+                };
+                if !shape_ok || listens.iter().any(|l| l[0] == a[0] && l[1] == a[1]) {
+                    return None;
+                }
+                listens.push(a);
+            }
+            _ => return None,
+        }
+    }
+    if r.i != c.len() || known.len() != nk {
+        return None;
+    }
+    for op in known.iter().chain(later.iter()) {
+        for a in &op.addrs {
+            real_of(w, a)?;
+        }
+    }
+    let mut abs_ports: Vec<u64> = listens.iter().map(|l| l[1].1).collect();
+    abs_ports.sort();
+    abs_ports.dedup();
+
+    let _ = take_evicted();
+    let _ = take_add_order();
+    let _ = take_add_calls();
+    let mut attempt = 0;
+    let (mut litep2p, ports) = loop {
+        attempt += 1;
+        let ports = PortMap(abs_ports.iter().map(|a| (*a, free_port())).collect());
+        let real = |a: &Abs| ports.real(&real_of(w, a).expect("checked"));
+        let mut builder = ConfigBuilder::new().with_keypair(w.keys[local as usize].clone());
+        if et {
+            builder = builder.with_tcp(litep2p::transport::tcp::config::Config {
+                listen_addresses: listens.iter().filter(|l| l.len() == 2).map(real).collect(),
+                ..Default::default()
+            });
+        }
+        if ew {
+            builder = builder.with_websocket(litep2p::transport::websocket::config::Config {
+                listen_addresses: listens.iter().filter(|l| l.len() == 3).map(real).collect(),
+                ..Default::default()
+            });
+        }
+        let config = builder
+            .with_known_addresses(
+                known.iter().map(|op| (w.peers[op.peer as usize], op.addrs.iter().map(real).collect::<Vec<_>>())),
+            )
+            .build();
+        match Litep2p::new(config) {
+            Ok(l) => break (l, ports),
+            Err(e) if attempt < 30 => {
+                // a listen port was taken in the meantime: other ports
+                let _ = (take_evicted(), take_add_order(), take_add_calls());
+                let _ = e;
+            }
+            Err(e) => panic!("Litep2p::new keeps failing: {e:?}"),
+        }
+    };
+    let abs = |m: &Multiaddr| abs_of(w, &ports.abs(m));
+    let store = |l: &Litep2p, peer: u64| -> Vec<(Abs, i32)> {
+        let mut v: Vec<(Abs, i32)> = l
+            .verif_transport_manager()
+            .verif_peer_addresses(&w.peers[peer as usize])
+            .unwrap_or_default()
+            .into_iter()
+            .map(|(a, s)| (abs(&a), s))
+            .collect();
+        v.sort_by_key(|(a, _)| sort_key(a));
+        v
+    };
+
+    // the configuration phase, call by call, from the logs of the hooks
+    let calls = take_add_calls();
+    let order = take_add_order();
+    let evicted = take_evicted();
+    assert!(calls.len() == known.len(), "one add_known_address call per configured entry");
+    let mut case = vec![nk as u64];
+    case.extend(header);
+    case.push(nops as u64);
+    let (mut o, mut total) = (0usize, 0usize);
+    for (i, op) in known.iter().enumerate() {
+        let (n, ev_from) = calls[i];
+        let ev_to = calls.get(i + 1).map(|c| c.1).unwrap_or(evicted.len());
+        total += n;
+        case.extend([0, op.peer]);
+        enc_list(&op.addrs, &mut case);
+        enc_list(&order[o..o + n].iter().map(&abs).collect::<Vec<_>>(), &mut case);
+        enc_list(&evicted[ev_from..ev_to].iter().map(&abs).collect::<Vec<_>>(), &mut case);
+        o += n;
+    }
+    assert!(total == order.len(), "insertion log and counts differ");
+    for l in &listens {
+        case.push(5);
+        enc_abs(l, &mut case);
+    }
+    let mut out = vec![2u64];
+    let mut l: Vec<Abs> =
+        litep2p.verif_transport_manager().verif_listen_addresses().iter().map(&abs).collect();
+    l.sort_by_key(sort_key);
+    enc_list(&l, &mut out);
+    for peer in 0..NPEERS {
+        dump(&store(&litep2p, peer), &mut out);
+    }
+    out.push(0);
+    for op in &later {
+        let real: Vec<Multiaddr> =
+            op.addrs.iter().map(|a| ports.real(&real_of(w, a).expect("checked"))).collect();
+        let n = litep2p.add_known_address(w.peers[op.peer as usize], real.into_iter());
+        let calls = take_add_calls();
+        assert!(calls.len() == 1 && calls[0].0 == n, "one call, the count it returned");
+        case.extend([0, op.peer]);
+        enc_list(&op.addrs, &mut case);
+        enc_list(&take_add_order().iter().map(&abs).collect::<Vec<_>>(), &mut case);
+        enc_list(&take_evicted().iter().map(&abs).collect::<Vec<_>>(), &mut case);
+        out.extend([0, n as u64, 0]);
+        dump(&store(&litep2p, op.peer), &mut out);
+    }
+    Some((case, out))
+}
+
 // ---------------------------------------------------------------- generator
 
 struct Gen<'a> {
@@ -975,6 +1227,8 @@ struct Gen<'a> {
     codes: Vec<u64>,
     /// listen addresses registered so far
     listens: Vec<Abs>,
+    /// ports are drawn below this bound
+    max_port: u64,
 }
 
 impl<'a> Gen<'a> {
@@ -1009,7 +1263,7 @@ impl<'a> Gen<'a> {
         if self.rng.chance(60) {
             self.rng.pick(&self.ports)
         } else {
-            self.rng.range(1, 65535)
+            self.rng.range(1, self.max_port)
         }
     }
 
@@ -1304,11 +1558,125 @@ fn sweep_case(codes: &[u64], index: u64) -> Vec<u64> {
     c
 }
 
+/// A Litep2p-level case: configuration (transports with loopback listen addresses, known
+/// addresses) and later `Litep2p::add_known_address` calls. The offered addresses include the
+/// node's own listen addresses under other peer ids, loopback aliases on the listen ports, fresh
+/// dialable addresses and arbitrary shapes; some cases configure more than 64 addresses for one peer.
+fn gen_lp_case(rng: &mut Rng) -> Vec<u64> {
+    let (en_tcp, en_ws) = match rng.below(4) {
+        0 => (true, false),
+        1 => (false, true),
+        _ => (true, true),
+    };
+    let mut g = Gen {
+        rng,
+        ports: [30, 31, 32],
+        known: vec![Vec::new(); NPEERS as usize],
+        seq: 0,
+        en_tcp,
+        en_ws,
+        codes: Vec::new(),
+        listens: Vec::new(),
+        max_port: LP_PORTS - 1,
+    };
+    let local = g.rng.below(4);
+    let nlisten = g.rng.pick(&[0u64, 1, 1, 2, 2, 3]);
+    let mut listens: Vec<Abs> = Vec::new();
+    for _ in 0..nlisten {
+        let ws = if en_tcp && en_ws { g.rng.chance(40) } else { en_ws };
+        let mut l = vec![(0u64, 65536 + g.rng.below(4)), (5u64, g.rng.pick(&[30u64, 31, 32]))];
+        if ws {
+            l.push((7, 0));
+        }
+        if !listens.iter().any(|x: &Abs| x[0] == l[0] && x[1] == l[1]) {
+            listens.push(l);
+        }
+    }
+    g.listens = listens.clone();
+    let fill = g.rng.chance(25);
+    let focus = g.rng.range(1, NPEERS - 1);
+    let offer = |g: &mut Gen, peer: u64| -> Abs {
+        match g.rng.below(10) {
+            0 | 1 if !g.listens.is_empty() => {
+                // a listen address of the node, under this or the local peer id (or none)
+                let i = g.rng.below(g.listens.len() as u64) as usize;
+                let mut a = g.listens[i].clone();
+                match g.rng.below(4) {
+                    0 => a.push((10, local)),
+                    1 => {}
+                    _ => a.push((10, peer)),
+                }
+                a
+            }
+            2 if !g.listens.is_empty() => {
+                // a loopback alias on a listen port
+                let i = g.rng.below(g.listens.len() as u64) as usize;
+                let mut a = g.listens[i].clone();
+                a[0] = if g.rng.chance(70) { (0, 65536 + g.rng.below(300)) } else { (1, 65536) };
+                a.push((10, peer));
+                a
+            }
+            3..=6 => g.fresh(peer),
+            _ => {
+                let mut a = g.addr(peer);
+                for x in a.iter_mut() {
+                    if (x.0 == 5 || x.0 == 6) && x.1 >= LP_PORTS {
+                        x.1 %= LP_PORTS;
+                    }
+                }
+                a
+            }
+        }
+    };
+    let mut ops: Vec<Vec<u64>> = Vec::new();
+    let nk = if fill { g.rng.range(14, 22) } else { g.rng.below(6) };
+    for _ in 0..nk {
+        let peer = if fill && g.rng.chance(85) { focus } else { (focus + g.rng.below(3)) % NPEERS };
+        let n = if fill { g.rng.range(3, 8) } else { g.rng.range(1, 5) };
+        let mut op = vec![0, peer, n];
+        for _ in 0..n {
+            let a = if fill && g.rng.chance(80) { g.fresh(peer) } else { offer(&mut g, peer) };
+            g.remember(peer, &a);
+            enc_abs(&a, &mut op);
+        }
+        op.extend([0, 0]);
+        ops.push(op);
+    }
+    for l in &listens {
+        let mut op = vec![5];
+        enc_abs(l, &mut op);
+        ops.push(op);
+    }
+    let nlater = g.rng.below(9);
+    for _ in 0..nlater {
+        let peer = if fill && g.rng.chance(70) { focus } else { (focus + g.rng.below(3)) % NPEERS };
+        let n = g.rng.range(1, 4);
+        let mut op = vec![0, peer, n];
+        for _ in 0..n {
+            let a = if g.rng.chance(25) { g.known_or_fresh(peer) } else { offer(&mut g, peer) };
+            enc_abs(&a, &mut op);
+        }
+        op.extend([0, 0]);
+        ops.push(op);
+    }
+    let mut c = vec![2, nk, 1, 0, en_tcp as u64, en_ws as u64, 0, local, 0, ops.len() as u64];
+    for op in ops {
+        c.extend(op);
+    }
+    c
+}
+
+/// every LP_EVERY-th random case runs at the level of `Litep2p`
+const LP_EVERY: u64 = 8;
+
 fn gen_case(rng: &mut Rng, codes: &[u64], index: u64, thorough: bool) -> Vec<u64> {
     if index < NSWEEP {
         return sweep_case(codes, index);
     }
     let index = index - NSWEEP;
+    if index % LP_EVERY == LP_EVERY - 1 {
+        return gen_lp_case(rng);
+    }
     let ports = [30, 31, rng.range(1, 65535)];
     let en_tcp = rng.chance(90);
     let en_ws = rng.chance(65);
@@ -1321,6 +1689,7 @@ fn gen_case(rng: &mut Rng, codes: &[u64], index: u64, thorough: bool) -> Vec<u64
         en_ws,
         codes: codes.to_vec(),
         listens: Vec::new(),
+        max_port: 65535,
     };
     let local = g.rng.below(4);
     // max_outgoing_connections: none, or 0..=8 (encoded +1)
@@ -1356,15 +1725,26 @@ fn gen_case(rng: &mut Rng, codes: &[u64], index: u64, thorough: bool) -> Vec<u64
         let r = g.rng.below(100);
         let add_single = if fill { 40 } else { 30 };
         if r < add_single {
-            let a = if (fill && g.rng.chance(70)) || (clean && g.rng.chance(50)) { g.fresh(peer) } else { g.addr(peer) };
-            g.remember(peer, &a);
-            c.extend([0, peer, 1]);
+            let mut a = if (fill && g.rng.chance(70)) || (clean && g.rng.chance(50)) { g.fresh(peer) } else { g.addr(peer) };
+            // a quarter of the additions come through a protocol's TransportService, half of those
+            // without the trailing peer id (the service appends it)
+            let service = g.rng.chance(25);
+            if service && g.rng.chance(50) && a.last() == Some(&(10, peer)) {
+                a.pop();
+            }
+            let mut full = a.clone();
+            if service && !matches!(full.last(), Some((10, _))) {
+                full.push((10, peer));
+            }
+            g.remember(peer, &full);
+            c.extend([if service { 13 } else { 0 }, peer, 1]);
             enc_abs(&a, &mut c);
             c.extend([0, 0]);
         } else if r < add_single + 12 {
             // several addresses in one call (evictions included: the insertion order is observed)
             let n = g.rng.range(2, 6);
-            c.extend([0, peer, n]);
+            let service = g.rng.chance(25);
+            c.extend([if service { 13 } else { 0 }, peer, n]);
             let mut prev: Option<Abs> = None;
             for _ in 0..n {
                 let a = match &prev {
@@ -1372,6 +1752,10 @@ fn gen_case(rng: &mut Rng, codes: &[u64], index: u64, thorough: bool) -> Vec<u64
                     _ if fill && g.rng.chance(60) => g.fresh(peer),
                     _ => g.addr(peer),
                 };
+                let mut a = a;
+                if service && g.rng.chance(40) && a.last() == Some(&(10, peer)) {
+                    a.pop();
+                }
                 g.remember(peer, &a);
                 enc_abs(&a, &mut c);
                 prev = Some(a);
